@@ -1,8 +1,8 @@
 #!/verif/.venv/bin/python
 # Replay of a solver counterexample against the unmodified code (no shims).
-# property=C16 kernel=pulse label=k4:arb_phase_reproduced
+# property=C16 kernel=phase_fp label=k4:fp_phase_below_2pi
 import sys
 sys.path[:0] = ["/repo/pulser-core", "/repo/pulser-simulation", "/verif"]
 from symx.replay import replay
-sys.exit(replay(check='checks.c16', kernel='pulse', shape={'what': 'arb', 'kind': 'custom', 'n': 3},
-                assignment={'phi0': '39229421819982868085743327557818714729681588894816711953547/2353871696905430425028542346203157611021031243665371037696', 'phi1': '9807663396648582410141083989341454787772694366340628970495967/294233962113178803128567793275394701377628905458171379712000', 'phi2': '50/1'}, label='k4:arb_phase_reproduced'))
+sys.exit(replay(check='checks.c16', kernel='phase_fp', shape={},
+                assignment={'x_bits': 9223372037928517632}, label='k4:fp_phase_below_2pi'))
